@@ -258,7 +258,7 @@ func runProperty(m *PropMeta, tier, repo, verif string, overlay map[string][]byt
 			res.Notes = c.Notes
 			if len(p.Inlined) > 0 {
 				res.Notes = append(res.Notes, fmt.Sprintf("normalisation: %d helper(s) that do not exist in the pinned tree were inlined back into their callers before analysis (normalize.go): %s", len(p.Inlined), strings.Join(p.Inlined, ", ")))
-				fmt.Printf("NOTE: property=%s analysed after inlining new helper(s): %s\n", m.ID, strings.Join(p.Inlined, ", "))
+				fmt.Fprintf(os.Stderr, "NOTE: property=%s analysed after inlining new helper(s): %s\n", m.ID, strings.Join(p.Inlined, ", "))
 			}
 			if len(p.NotInl) > 0 {
 				res.Notes = append(res.Notes, "normalisation: new helper(s) left as they are (shape not supported by the inliner): "+strings.Join(p.NotInl, ", "))
